@@ -132,8 +132,16 @@ func (b *TermBank) intern(t *Term) *Term {
 	b.n++
 	t.id = b.n
 	b.tab[k] = t
-	if t.Sort.Kind == SUnint {
-		b.sorts[t.Sort.Name] = t.Sort
+	for st := []*Sort{t.Sort}; len(st) > 0; {
+		s := st[len(st)-1]
+		st = st[:len(st)-1]
+		switch s.Kind {
+		case SUnint:
+			b.sorts[s.Name] = s
+		case SArray:
+			// an array over an uninterpreted sort needs that sort declared even when no term of it occurs
+			st = append(st, s.Idx, s.Elem)
+		}
 	}
 	return t
 }
